@@ -790,6 +790,36 @@ impl<'a> Interp<'a> {
                 self.stats.bump("hammer");
                 self.check_snapshots("after repeated gets")?;
             }
+            Op::IterHammer(s, n) => {
+                let k = self.key(*s);
+                let count = 101 + (*n as usize % 30);
+                let want = self.model.range(k.clone()..).next().map(|(a, b)| (a.clone(), b.clone()));
+                let compare = self.o.latest || self.o.cursor || self.o.snapshot;
+                self.metamorphic("seeks of fresh iterators (read sampling, seek-triggered compaction)", |me| {
+                    for _ in 0..count {
+                        let mut it = match me.db().new_iterator(ReadOptions::default()) {
+                            Ok(it) => it,
+                            Err(e) => return me.fail(format!("new_iterator failed: {e:?}")),
+                        };
+                        if let Err(e) = it.seek(&k) {
+                            return me.fail(format!("seek of a fresh iterator failed: {e:?}"));
+                        }
+                        let got = if it.is_valid() { it.current().map(|(a, b)| (a.clone(), b.clone())) } else { None };
+                        if compare && got != want {
+                            return me.fail(format!(
+                                "a fresh iterator after seek({}) is at {:?} but the first committed pair at or after it is {:?}",
+                                hex(&k),
+                                got.as_ref().map(|(a, b)| (hex(a), hex(b))),
+                                want.as_ref().map(|(a, b)| (hex(a), hex(b)))
+                            ));
+                        }
+                    }
+                    Ok(())
+                })?;
+                self.after_state_change();
+                self.stats.bump("iter_hammer");
+                self.check_snapshots("after seeks of fresh iterators")?;
+            }
             Op::Reopen(cfg) => {
                 self.check_dirlist("before close")?;
                 self.close()?;
